@@ -268,6 +268,26 @@ class PathChecker:
                 return False
         return True
 
+    def _near_rounding_boundary(self, env, eps=Fraction(1, 10 ** 6)):
+        from . import evalq
+        import math
+        for tag in self.ex.tags:
+            if not tag or tag[0] not in ('floor', 'round0', 'round2'):
+                continue
+            try:
+                x = evalq.evaluate(tag[1], env)
+            except evalq.EvalError:
+                continue
+            if tag[0] == 'round2':
+                x = x * 100
+            fr = x - math.floor(x)
+            if tag[0] == 'floor':
+                if fr < eps or fr > 1 - eps:
+                    return True
+            elif abs(fr - Fraction(1, 2)) < eps:
+                return True
+        return False
+
     def _knife_edge(self):
         z3 = self.z3
         for c, tag in zip(self.ex.pc, self.ex.tags):
@@ -366,6 +386,9 @@ class PathChecker:
                    solver_s=0.0, pending=[])
         t0 = time.time()
         kind, val, pending = ex.run_path(prefix, lambda: h.run(self.inp))
+        if kind == 'raise' and isinstance(val, z3.Z3Exception):
+            # solver-library hiccup (e.g. a late interrupt): the path is simply executed again
+            kind, val, pending = ex.run_path(prefix, lambda: h.run(self.inp))
         res['pending'] = pending
         res['decisions'] = len(ex.trace)
         res['kind'] = kind
@@ -392,6 +415,7 @@ class PathChecker:
         s.add(*ex.pc)
         s.add(*L.axioms)
         ts = time.time()
+        lemmas = []
         for name, viol in obls:
             res['obligations'] += 1
             viol = L.bool(viol)
@@ -404,7 +428,10 @@ class PathChecker:
             s.add(viol)
             tq = time.time()
             # a fresh one-shot solver per obligation: z3's incremental core is much weaker on nonlinear goals
-            r, how = core.robust_check(self.base + ex.pc + L.axioms + [viol], h.obligation_timeout_ms, res['strategies'])
+            r, how = core.robust_check(self.base + ex.pc + L.axioms + lemmas + [viol], h.obligation_timeout_ms, res['strategies'])
+            if r == z3.unsat and getattr(h, 'chain_lemmas', False):
+                # a discharged obligation is a consequence of the path condition: later obligations of the same path may use it
+                lemmas.append(z3.Not(viol))
             if os.environ.get('VERIF_TRACE'):
                 print('   obligation %-50s %s %.2fs' % (name, r, time.time() - tq), flush=True)
             if r == z3.unsat:
@@ -497,6 +524,7 @@ class PathChecker:
         msg = None
         tried = 0
         left_path = 0
+        near_boundary = 0
         self.model_timeout_ms = 5000
         dy = self._dyadic()
         for m in self._models(s, [self._friendly() + self._interior() + dy, self._interior() + dy, dy,
@@ -518,6 +546,11 @@ class PathChecker:
                 continue
             cobs = self.h.observe(cinp, cout)
             msg = _compare_observations(obs, cobs, env)
+            if msg is not None and self._near_rounding_boundary(env):
+                # an integer-part argument sits within 1e-6 of its boundary: the float computation may round the other way
+                near_boundary += 1
+                msg = None
+                continue
             if msg is None:
                 res['validated'] += 1
                 if res['sample'] is None:
@@ -525,6 +558,9 @@ class PathChecker:
                                          witness={k: _jsonable(v) for k, v in vals.items()},
                                          float_run=_short(cobs))
                 return
+        if near_boundary and msg is None:
+            res['validation_knife_edge'] += 1
+            return
         if tried == 0 or tried == left_path or msg is None:
             # no model within the witness budget, or every model left the path once rounded to floats: not a mismatch
             res['validation_skipped'] += 1
@@ -557,6 +593,11 @@ def _short(x, n=600):
         return str(v)[:120]
     s = json.dumps(conv(x), default=str)
     return s if len(s) <= n else s[:n] + '...'
+
+
+def _sample_rank(smp):
+    # prefer a validated, normally completed, long path as the written-out example
+    return (0 if smp.get('outcome') == 'ok' else 1, 0 if 'witness' in smp else 1, -len(smp.get('path', '')))
 
 
 def run_job(job):
@@ -597,8 +638,10 @@ def run_job(job):
                 agg['twins'][k] = agg['twins'].get(k, False) or v
             for k, v in r['strategies'].items():
                 agg['strategies'][k] = agg['strategies'].get(k, 0) + v
-            if r['sample'] and len(agg['samples']) < 2:
+            if r['sample']:
                 agg['samples'].append(r['sample'])
+                agg['samples'].sort(key=_sample_rank)
+                del agg['samples'][2:]
         agg['leftover'] = stack
         agg['feas_queries'] = pc.ex.queries - q0
         agg['feas_unknown'] = pc.ex.unknown - u0
@@ -669,70 +712,99 @@ def run_property(prop, module, tier, seed=0, workers=None, deadline_s=None, extr
     timed_out = False
     seen_by_cfg = {}
     last_progress = time.time()
-    with ProcessPoolExecutor(max_workers=workers, mp_context=ctx, initializer=_worker_init) as pool:
+    from concurrent.futures.process import BrokenProcessPool
+    crashes = 0
+
+    def handle(j, a):
+        p = per[j['cfg']['name']]
+        functions.update(a.get('functions', []))
+        for v in a.get('violations', []):
+            seen_by_cfg.setdefault(j['cfg']['name'], {})
+            seen_by_cfg[j['cfg']['name']][v['obligation']] = seen_by_cfg[j['cfg']['name']].get(v['obligation'], 0) + 1
+        if a.get('error'):
+            p['errors'].append(a['error'])
+            return
+        for k in ('paths', 'decisions', 'obligations', 'discharged', 'trivial', 'validated', 'validation_skipped', 'validation_knife_edge', 'outside', 'solver_s',
+                  'feas_queries', 'feas_unknown'):
+            p[k] += a[k]
+        p['cpu_s'] += a.get('wall_s', 0)
+        for k in ('unknown', 'violations', 'unreproduced', 'validation_failed', 'inconclusive', 'also_sat'):
+            p[k].extend(a[k])
+        for k, v in a['kinds'].items():
+            p['kinds'][k] = p['kinds'].get(k, 0) + v
+        for k, v in a['twins'].items():
+            p['twins'][k] = p['twins'].get(k, False) or v
+        for k, v in a.get('strategies', {}).items():
+            p['strategies'][k] = p['strategies'].get(k, 0) + v
+        p['samples'].extend(a['samples'])
+        p['samples'].sort(key=_sample_rank)
+        del p['samples'][2:]
+        left = a['leftover']
+        # split the leftover frontier into several jobs to spread the load
+        n = max(1, min(len(left), workers))
+        for k in range(n):
+            chunk = left[k::n]
+            if chunk:
+                g = j.get('gen', 0) + 1
+                # ramp up: tiny chunks first so that the frontier spreads over the workers quickly
+                mp_ = min(j['cfg'].get('chunk', 40), 2 ** (g + 1))
+                pending_jobs.append(dict(j, prefixes=chunk, gen=g, max_paths=mp_, retries=0))
+    while (pending_jobs) and not timed_out:
+        pool = ProcessPoolExecutor(max_workers=workers, mp_context=ctx, initializer=_worker_init)
         running = {}
-        while pending_jobs or running:
-            while pending_jobs and len(running) < workers * 2:
-                j = pending_jobs.popleft()
-                j = dict(j, seen=dict(seen_by_cfg.get(j['cfg']['name'], {})),
-                         twins_ok=[k for k, v in per[j['cfg']['name']]['twins'].items() if v])
-                running[pool.submit(run_job, j)] = j
-            done, _ = wait(list(running), timeout=5, return_when=FIRST_COMPLETED)
-            if time.time() - last_progress > 30:
-                last_progress = time.time()
-                print('[%4ds] %s: %d paths, %d jobs running, %d queued (%s)' % (
-                    time.time() - t0, prop, sum(p['paths'] for p in per.values()), len(running), len(pending_jobs),
-                    ', '.join('%s:%d' % (k[:18], v['paths']) for k, v in per.items() if v['paths'])[:300]), file=sys.stderr, flush=True)
-            if time.time() - t0 > deadline_s:
-                timed_out = True
-                for f in running:
-                    f.cancel()
-                break
-            for f in done:
-                j = running.pop(f)
-                try:
-                    a = f.result()
-                except Exception as e:
-                    a = dict(cfg=j['cfg']['name'], error='worker died: %r' % e, paths=0, leftover=[], functions=[])
-                p = per[j['cfg']['name']]
-                functions.update(a.get('functions', []))
-                for v in a.get('violations', []):
-                    seen_by_cfg.setdefault(j['cfg']['name'], {})
-                    seen_by_cfg[j['cfg']['name']][v['obligation']] = seen_by_cfg[j['cfg']['name']].get(v['obligation'], 0) + 1
-                if a.get('error'):
-                    p['errors'].append(a['error'])
-                    continue
-                for k in ('paths', 'decisions', 'obligations', 'discharged', 'trivial', 'validated', 'validation_skipped', 'validation_knife_edge', 'outside', 'solver_s',
-                          'feas_queries', 'feas_unknown'):
-                    p[k] += a[k]
-                p['cpu_s'] += a.get('wall_s', 0)
-                for k in ('unknown', 'violations', 'unreproduced', 'validation_failed', 'inconclusive', 'also_sat'):
-                    p[k].extend(a[k])
-                for k, v in a['kinds'].items():
-                    p['kinds'][k] = p['kinds'].get(k, 0) + v
-                for k, v in a['twins'].items():
-                    p['twins'][k] = p['twins'].get(k, False) or v
-                for k, v in a.get('strategies', {}).items():
-                    p['strategies'][k] = p['strategies'].get(k, 0) + v
-                if len(p['samples']) < 2:
-                    p['samples'].extend(a['samples'][:2 - len(p['samples'])])
-                left = a['leftover']
-                # split the leftover frontier into several jobs to spread the load
-                n = max(1, min(len(left), workers))
-                for k in range(n):
-                    chunk = left[k::n]
-                    if chunk:
-                        g = j.get('gen', 0) + 1
-                        # ramp up: tiny chunks first so that the frontier spreads over the workers quickly
-                        mp_ = min(j['cfg'].get('chunk', 40), 2 ** (g + 1))
-                        pending_jobs.append(dict(j, prefixes=chunk, gen=g, max_paths=mp_, seen=dict(seen_by_cfg.get(j['cfg']['name'], {}))))
-        if timed_out:
-            pool.shutdown(wait=False, cancel_futures=True)
-            for pr in list(getattr(pool, '_processes', {}).values()):
-                try:
-                    pr.terminate()
-                except Exception:
-                    pass
+        broken = False
+        try:
+            while pending_jobs or running:
+                while pending_jobs and len(running) < workers * 2:
+                    j = pending_jobs.popleft()
+                    j = dict(j, seen=dict(seen_by_cfg.get(j['cfg']['name'], {})),
+                             twins_ok=[k for k, v in per[j['cfg']['name']]['twins'].items() if v])
+                    running[pool.submit(run_job, j)] = j
+                done, _ = wait(list(running), timeout=5, return_when=FIRST_COMPLETED)
+                if time.time() - last_progress > 30:
+                    last_progress = time.time()
+                    print('[%4ds] %s: %d paths, %d jobs running, %d queued (%s)' % (
+                        time.time() - t0, prop, sum(p['paths'] for p in per.values()), len(running), len(pending_jobs),
+                        ', '.join('%s:%d' % (k[:18], v['paths']) for k, v in per.items() if v['paths'])[:300]), file=sys.stderr, flush=True)
+                if time.time() - t0 > deadline_s:
+                    timed_out = True
+                    break
+                for f in done:
+                    j = running.pop(f)
+                    try:
+                        a = f.result()
+                    except BrokenProcessPool:
+                        running[f] = j
+                        raise
+                    except Exception as e:
+                        a = dict(cfg=j['cfg']['name'], error='worker failed: %r' % e, paths=0, leftover=[], functions=[])
+                    handle(j, a)
+        except BrokenProcessPool:
+            # a worker process died (a native crash inside the solver library): rebuild the pool and run the jobs that were
+            # in flight again, one path at a time; a job that keeps killing its worker is reported, never passed over
+            broken = True
+            crashes += 1
+            for f, j in list(running.items()):
+                r = j.get('retries', 0) + 1
+                if r > 3 or crashes > 12:
+                    per[j['cfg']['name']]['errors'].append('worker process crashed repeatedly on prefixes %r' % (j['prefixes'][:2],))
+                elif len(j['prefixes']) > 1:
+                    for pf in j['prefixes']:
+                        pending_jobs.appendleft(dict(j, prefixes=[pf], retries=r, max_paths=1))
+                else:
+                    pending_jobs.appendleft(dict(j, retries=r, max_paths=1))
+            running = {}
+        finally:
+            try:
+                pool.shutdown(wait=False, cancel_futures=True)
+            except Exception:
+                pass
+            if timed_out or broken:
+                for pr in list((getattr(pool, '_processes', None) or {}).values()):
+                    try:
+                        pr.terminate()
+                    except Exception:
+                        pass
     for j in list(pending_jobs):
         per[j['cfg']['name']]['leftover'] += len(j['prefixes'])
     return finish(prop, mod, tier, seed, cfgs, per, functions, t0, timed_out, extra_evidence)
